@@ -52,13 +52,15 @@ TIERS = {
 }
 
 SIM = None
-ALG = OPS = BASE = None
+ALG = OPS = BASE = COORDS = None
 PSI = CLMO = ENC = None
 _TL = None
 
 
 def warmup(tier: str) -> None:
-    global SIM, ALG, OPS, BASE, PSI, CLMO, ENC, _TL
+    global SIM, ALG, OPS, BASE, PSI, CLMO, ENC, _TL, COORDS
+    import hiten.algorithms.polynomial.coordinates as coords
+    COORDS = coords
     import hiten.algorithms.polynomial.algebra as alg
     import hiten.algorithms.polynomial.operations as ops
     import hiten.algorithms.polynomial.base as base
@@ -204,12 +206,12 @@ def cmp_list(got, expected: pm.Poly, max_deg: int, exact: bool, what: str, vpref
 # --------------------------------------------------------------------------- operations
 OPLIST = ["mul", "diff", "poisson", "multiply", "poisson_bracket", "differentiate", "jacobian", "power",
           "substitute_linear", "substitute_affine", "add", "scale", "integrate", "evaluate",
-          "l_integrate", "l_evaluate", "add_inplace"]
-OPW = [0.2, 0.12, 0.1, 0.1, 0.08, 0.06, 0.05, 0.05, 0.04, 0.04, 0.03, 0.02, 0.04, 0.03, 0.02, 0.01, 0.01]
+          "l_integrate", "l_evaluate", "add_inplace", "subst_coords"]
+OPW = [0.2, 0.12, 0.1, 0.1, 0.08, 0.06, 0.05, 0.05, 0.04, 0.04, 0.03, 0.02, 0.04, 0.03, 0.02, 0.01, 0.01, 0.01]
 DEGP = [(1, 1), (2, 1), (2, 2), (1, 0), (3, 2), (3, 3), (0, 2), (4, 2), (4, 4), (6, 2), (5, 3)]
 DEGP_W = [0.22, 0.15, 0.2, 0.04, 0.12, 0.08, 0.03, 0.07, 0.03, 0.03, 0.03]
 DEGP_W_HEAVY = [0.02, 0.02, 0.06, 0.0, 0.1, 0.2, 0.0, 0.15, 0.25, 0.1, 0.1]
-OPW_HEAVY = [0.4, 0.15, 0.15, 0.1, 0.08, 0.04, 0.03, 0.03, 0.01, 0.01, 0, 0, 0, 0, 0, 0, 0]
+OPW_HEAVY = [0.4, 0.15, 0.15, 0.1, 0.08, 0.04, 0.03, 0.03, 0.01, 0.01, 0, 0, 0, 0, 0, 0, 0, 0]
 SIM_MAX_PAIR = 3600  # p.size*q.size bound inside the simulator
 
 
@@ -347,6 +349,14 @@ class Case:
             self.shifts = sh
         self.desc.update(max_deg=self.max_deg, C_complex=bool(np.iscomplexobj(C)))
 
+    def _gen_subst_coords(self):
+        ds = self.ds
+        cl = "small" if self.cls in ("large", "float") else self.cls
+        self.cls, self.exact = cl, True
+        self.C = np.array([[_val(cl, self.cplx, ds.choose(10, f"M[{i}][{j}]"), i + j) if ds.flag(f"M[{i}][{j}].nz", 0.4) else 0.0
+                            for j in range(6)] for i in range(6)], dtype=np.complex128 if self.cplx else np.float64)
+        self.point = np.array([_val(cl, True, ds.choose(10, f"pt[{i}]"), i) for i in range(6)], dtype=np.complex128)
+
     def _gen_substitute_linear(self):
         self._subst(False)
 
@@ -436,6 +446,8 @@ class Case:
             A = cp(self.P)
             f("_polynomial_add_inplace")(A, cp(self.Q), self.scale, self.lim)
             return A
+        if op == "subst_coords":
+            return COORDS._substitute_coordinates(self.point.copy(), self.C.copy())
         if op == "substitute_linear":
             return f("_substitute_linear")(cp(self.P), self.C.copy(), self.max_deg, PSI, CLMO, ENC)
         if op == "substitute_affine":
@@ -448,7 +460,7 @@ class Case:
                 "poisson_bracket": "_polynomial_poisson_bracket", "power": "_polynomial_power",
                 "differentiate": "_polynomial_differentiate", "jacobian": "_polynomial_jacobian",
                 "l_integrate": "_polynomial_integrate", "l_evaluate": "_polynomial_evaluate",
-                "add_inplace": "_polynomial_add_inplace", "substitute_linear": "_substitute_linear",
+                "add_inplace": "_polynomial_add_inplace", "subst_coords": "_poly_add", "substitute_linear": "_substitute_linear",
                 "substitute_affine": "_substitute_affine"}[self.op]
 
     # ---- the exact expected result and the comparison
@@ -479,6 +491,11 @@ class Case:
             mag = sum(abs(complex(v)) * float(np.prod([abs(x) ** e for x, e in zip(self.point, k)])) for k, v in p.items())
             if abs(complex(got) - exp) > 1e-12 * max(mag, 1e-300) + 1e-300:
                 raise Violation(vprefix, f"{what}: value {complex(got)} != exact {exp} (sum of |terms| {mag:.3e})")
+            return
+        if op == "subst_coords":
+            exp = np.array([complex(sum((pm.GQ.of(complex(self.C[i, j])) * pm.GQ.of(complex(self.point[j])) for j in range(6)), pm.GQ())) for i in range(6)])
+            if not np.array_equal(np.asarray(got, dtype=np.complex128), exp):
+                raise Violation(vprefix, f"{what}: _substitute_coordinates returned {np.asarray(got).tolist()}, exact matrix-vector product is {exp.tolist()}")
             return
         P = list_to_poly(self.P)
         md = self.max_deg
